@@ -37,6 +37,10 @@ def scenarios():
     out = [
         scen("shared-new-parent", F, [bf("a", ["N", "a"], "w"), bf("b", ["N", "b"], "w")]),
         scen("one-fails-after-write", F, [bf("a", ["N", "a"], "w"), bf("b", ["N", "b"], "fa")]),
+        # the failing thread first: its error handling can run while the other thread is between
+        # looking at N and registering (two pre-emptions; always explored at bound 2)
+        scen("first-fails-after-write", F, [bf("a", ["N", "a"], "fa"), bf("b", ["N", "b"], "w")]),
+        scen("first-fails-before-write", F, [bf("a", ["N", "a"], "fb"), bf("b", ["N", "b"], "w")]),
         scen("both-fail", F, [bf("a", ["N", "a"], "fb"), bf("b", ["N", "b"], "fa")]),
         scen("one-does-not-create", F, [bf("a", ["N", "a"], "nc"), bf("b", ["N", "b"], "w")]),
         scen("nested-parents", F, [bf("a", ["N", "M", "a"], "w"), bf("b", ["N", "b"], "w")]),
@@ -63,11 +67,13 @@ def t2(rep, tier, workdir):
 
 def t3(rep, tier, budget=1):
     fails = []
-    bound = 1 if tier == "quick" else 2
+    # a broken tie (budget > 1) widens the search to two pre-emptions everywhere
+    bound = 1 if (tier == "quick" and budget == 1) else 2
     limit = (120 if tier == "quick" else 2500) * budget
     total = 0
     for case in scenarios():
-        ref, bad, n = conc.explore(case, t2.workdir, bound=bound, limit=limit)
+        deep = case["tag"].startswith("first-fails")
+        ref, bad, n = conc.explore(case, t2.workdir, bound=2 if deep else bound, limit=max(limit, 3000) if deep or bound == 2 else limit)
         total += n
         rep.extra.setdefault("schedules", {})[case["tag"]] = n
         rep.evaluations += n
